@@ -146,10 +146,11 @@ theorem byref_call_C {ms : MacroSem} {subs : CSubEnv} {f : Nat} {σ σ1 σr : MS
     (hargs : evalCHArgs ms subs f σ args params = .ok (vs, σ1))
     (hspec : specCallC name exts σ1 = none) (hsub : lookupS name subs = some sub) (hrefs : refArgs exts = sub.refs)
     (hbody : execCHs ms subs f sub.body { σ1 with locals := (sub.params.map (·.1)).zip vs } = .ok σr)
-    (hret : lookupS "$ret" σr.locals = some v) :
-    ∃ σ2, evalCH ms subs (f+1) σ (.callx name exts args ret params) = .ok (v, σ2) ∧
+    (hret : lookupS "$ret" σr.locals = some v) {v' : Val}
+    (hconv : convC { signed := false, width := 64 } sub.ret v = .ok v') :
+    ∃ σ2, evalCH ms subs (f+1) σ (.callx name exts args ret params) = .ok (v', σ2) ∧
       σ2.new = σr.new ∧ σ2.written = σr.written ∧ σ2.mem = σr.mem ∧ σ2.locals = σ1.locals ∧ σ2.cur = σ1.cur :=
-  ⟨_, evalCH_callx_sub hargs hspec hsub hrefs hbody hret, rfl, rfl, rfl, rfl, rfl⟩
+  ⟨_, evalCH_callx_sub hargs hspec hsub hrefs hbody hret hconv, rfl, rfl, rfl, rfl, rfl⟩
 
 /-- (7d) the model gives NO meaning to a call that hands the operand over under another name than the routine's own
     (the body names the slot by its parameter): such states are not judged -/
